@@ -68,8 +68,8 @@ CLAIMED = {
     technique='Coq proof (unambiguous factorisation of path templates by shape scanning -> full round trip, injectivity, normal forms) + correspondence + oracle',
     design='6 C05'),
  'C06': dict(
-    text='Theorems: whenever Sid(path=p, config=c) is typed its path(c) is p (normalised); otherwise it is the empty Sid; for every path string and configured configuration the call returns a Sid or ResolvaException, and the exception can only arise in the reverse check of the re-formatted path (excluded under an explicit unambiguity hypothesis). Differential run + oracle over systematically mutated paths (desynchronised duplicates, every literal character, dropped / duplicated components, trailing parts, swapped roots, newline).',
-    note=TB + 'PARTIAL: "never raises" is proved up to ResolvaException from the reverse check, which needs ambiguous templates to occur; not observed on any generated configuration.',
+    text='Theorems: whenever Sid(path=p, config=c) is typed its path(c) is p (normalised); otherwise it is the empty Sid; for every configuration passing the decidable checks paths_unambiguousb and paths_totalb, EVERY path string (no guard on characters or length) and every configured configuration the call returns a Sid (never raises) - proved on every run for the live configuration, with the extra clause shown necessary by counterexample configurations; for arbitrary well-formed configurations the call returns a Sid or ResolvaException, the latter only from the reverse check of the re-formatted path. Differential run + oracle over systematically mutated paths (desynchronised duplicates, every literal character, dropped / duplicated components, trailing parts, swapped roots, newline).',
+    note=TB + 'The two checks are sufficient, not complete (see C05). An unknown configuration name is a ConfigError by design of get_path_config and outside "every configured path configuration".',
     technique='Coq proof + correspondence + mutation stream oracle',
     design='6 C06'),
  'C11': dict(
